@@ -91,8 +91,18 @@ class Ctx:
         shutil.rmtree(self.scratch, ignore_errors=True)
 
 
+def _big_stack():
+    # coqc parses a cases file as one big term; lift the stack limit as far as allowed
+    import resource
+    soft, hard = resource.getrlimit(resource.RLIMIT_STACK)
+    try:
+        resource.setrlimit(resource.RLIMIT_STACK, (hard, hard))
+    except Exception:
+        pass
+
+
 def run(cmd, cwd=None, env=None, timeout=None, stdin=None):
-    p = subprocess.run(cmd, cwd=cwd, env=env, timeout=timeout, input=stdin,
+    p = subprocess.run(cmd, cwd=cwd, env=env, timeout=timeout, input=stdin, preexec_fn=_big_stack,
                        stdout=subprocess.PIPE, stderr=subprocess.STDOUT, text=True, errors="replace")
     return p.returncode, p.stdout
 
